@@ -3,7 +3,7 @@ import H2T.Lemmas.CssTotal
 /-! # C17 — CSS never breaks rendering; insignificant CSS syntax does not matter
 
 Status: **partial**.  Proved, each for *all* inputs: property names and hex digits are case-insensitive at the
-character level; a declaration value never swallows a `;` or a `}` (fix b6b3bed: `p{color:red}` no longer ends
+character level; a declaration value never swallows a `;` outside every block or a `}` that closes no `{` of the value, and keeps a `;` inside brackets (fix b6b3bed: `p{color:red}` no longer ends
 the sheet); any number of semicolons separates declarations and may end a block (fixes 27eb4ee, 9036316);
 `:nth-child` arguments never make the parser panic (fix 77b1b03: they fail the parse instead); **adding CSS is total**:
 every token consumes input (`token_consumes_input`, for all 20 token kinds incl. escapes, strings, numbers with units,
@@ -47,23 +47,41 @@ theorem hex_case_insensitive :
     hexVal 'A' = hexVal 'a' ∧ hexVal 'B' = hexVal 'b' ∧ hexVal 'C' = hexVal 'c' ∧
     hexVal 'D' = hexVal 'd' ∧ hexVal 'E' = hexVal 'e' ∧ hexVal 'F' = hexVal 'f' := by decide
 
-/-- a value token is never a semicolon or a closing brace: a declaration's value ends *before* them -/
-theorem value_stops_at_brace_and_semicolon (text : Inp) (r : Inp) (t : Tok)
-    (h : parseTokenNotSemicolon text = some (r, t)) : t ≠ .semicolon ∧ t ≠ .closeBrace := by
-  unfold parseTokenNotSemicolon at h
-  cases hp : parseToken text with
-  | none => simp [hp] at h
-  | some x =>
-    obtain ⟨r', t'⟩ := x
-    simp only [hp] at h
-    split at h
-    · simp at h
-    · rename_i hne
-      injection h with h
-      simp only [Prod.mk.injEq] at h
-      obtain ⟨_, rfl⟩ := h
-      simp only [Bool.or_eq_true, decide_eq_true_eq, not_or] at hne
-      exact hne
+/-- **a declaration value ends at a `;` outside every block**: with no block open, the value loop stops in front of a
+    semicolon (nothing after it is swallowed) -/
+theorem value_stops_at_top_level_semicolon (f : Nat) (i next : Inp) (acc : List Tok)
+    (h : parseToken i = some (next, .semicolon)) : valueGo (f + 1) i [] acc = (i, acc) := by
+  simp [valueGo, h]
+
+/-- **…and at a `}` that closes no `{` opened inside the value** — whatever else is still open (an unbalanced `(` cannot
+    swallow the end of the rule set; this is fix b6b3bed's guarantee, kept by the new loop) -/
+theorem value_stops_at_unmatched_brace (f : Nat) (i next : Inp) (st acc : List Tok)
+    (h : parseToken i = some (next, .closeBrace)) (hst : st.contains .closeBrace = false) :
+    valueGo (f + 1) i st acc = (i, acc) := by
+  have hm : ¬ Tok.closeBrace ∈ st := by simpa using hst
+  simp [valueGo, h, hm]
+
+/-- **a `;` inside an open (), [] or {} block belongs to the value** (`url(data:image/png;base64,…)` stays in one piece:
+    before the `fix:` commit of this session it ended the declaration and the rest of the rule set was lost) -/
+theorem semicolon_inside_block_is_kept (f : Nat) (i next : Inp) (c : Tok) (st acc : List Tok)
+    (h : parseToken i = some (next, .semicolon)) :
+    valueGo (f + 1) i (c :: st) acc = valueGo f next (c :: st) (acc ++ [.semicolon]) := by
+  simp [valueGo, h, closerOf, isCloserTok]
+
+/-- closing a block removes it together with everything still open inside it, and nothing else -/
+theorem dropTo_spec (inner outer : List Tok) (t : Tok) (h : t ∉ inner) : dropTo (inner ++ t :: outer) t = some outer := by
+  induction inner with
+  | nil => simp [dropTo]
+  | cons x r ih =>
+    have hx : x ≠ t := fun e => h (by simp [e])
+    have hr : t ∉ r := fun e => h (by simp [e])
+    simp only [List.cons_append, dropTo, hx, if_false]
+    exact ih hr
+theorem closeBlock_spec (inner outer : List Tok) (t : Tok) (h : t ∉ inner) : closeBlock (inner ++ t :: outer) t = outer := by
+  simp [closeBlock, dropTo_spec inner outer t h]
+
+/-- instance: in `f(a;b);x` the value is `f(a;b)` and the rest starts at the second semicolon -/
+example : (valueGo 9 ['f', '(', 'a', ';', 'b', ')', ';', 'x'] [] []).1 = [';', 'x'] := by decide +kernel
 
 /-- extra semicolons are skipped: after `eatSemis` no semicolon is left at the front (given enough fuel, which
     callers supply as the input length) and nothing is ever added -/
